@@ -4431,11 +4431,13 @@ func (c *linkerContext) convertStmtsForChunk(sourceIndex uint32, stmtList *stmtL
 						}}},
 					})
 
-					// Make sure these don't end up in the wrapper closure
-					if shouldExtractESMStmtsForWrap {
-						stmtList.outsideWrapperPrefix = append(stmtList.outsideWrapperPrefix, stmt)
-						continue
-					}
+				}
+
+				// Make sure these don't end up in the wrapper closure. That also holds
+				// for an "export * from 'path'" statement that stays as it is.
+				if shouldExtractESMStmtsForWrap {
+					stmtList.outsideWrapperPrefix = append(stmtList.outsideWrapperPrefix, stmt)
+					continue
 				}
 			} else {
 				if record.SourceIndex.IsValid() {
